@@ -99,6 +99,8 @@ structure Bid where
   deriving DecidableEq, Repr, Inhabited
 
 structure SellOrder where
+  /-- ghost field (not in the Go struct, never read by any operation): who placed the order -/
+  seller : Acct
   expireAt : Nat
   minPrice : Nat
   sellPrice : Nat      -- 0 = not set
@@ -522,7 +524,7 @@ def placeNameSO (s : State) (a : Acct) (n : Name) (min sell : Nat) : M State := 
     chk (AMap.get s.nameSO n).isNone .exists_
     let e := s.now + s.p.soDur
     chk (decide (¬ d.expireAt ≤ e)) .denied
-    let so : SellOrder := { expireAt := e, minPrice := min, sellPrice := sell, bid := none }
+    let so : SellOrder := { seller := a, expireAt := e, minPrice := min, sellPrice := sell, bid := none }
     pure { s with nameSO := AMap.set s.nameSO n so }
 
 /-- `MsgCancelSellOrder`, type Dym-Name -/
@@ -798,7 +800,7 @@ def placeAliasSO (s : State) (a : Acct) (l : AliasId) (min sell : Nat) : M State
   | some src =>
     chk (isCreator s src a) .denied
     chk (AMap.get s.aliasSO l).isNone .exists_
-    let so : SellOrder := { expireAt := s.now + s.p.soDur, minPrice := min, sellPrice := sell, bid := none }
+    let so : SellOrder := { seller := a, expireAt := s.now + s.p.soDur, minPrice := min, sellPrice := sell, bid := none }
     pure { s with aliasSO := AMap.set s.aliasSO l so }
 
 /-- `MsgCancelSellOrder`, type Alias -/
